@@ -39,30 +39,33 @@ func genCisco(kind string, seed int64) *genCase {
 // unmanagedProjection prints the objects Netspoc must not touch.
 func unmanagedProjection(d *mcisco.Device) string {
 	var b strings.Builder
-	names := map[string]bool{"manual_acl": true, "capture_acl": true, "mgmt_in": true, "admin-hosts": true}
+	fixed := map[string]bool{"manual_acl": true, "capture_acl": true, "mgmt_in": true, "admin-hosts": true}
+	marked := func(s string) bool {
+		return strings.Contains(s, "kept") || strings.Contains(s, "Kept") || strings.Contains(s, "MANUAL") ||
+			strings.Contains(s, "ManualSplit") || strings.Contains(s, "AdminPolicy") || strings.Contains(s, "admin-pool")
+	}
 	for _, a := range d.ACLs {
-		if names[a.Name] {
+		if fixed[a.Name] || marked(a.Name) {
 			for _, e := range a.Entries {
 				fmt.Fprintf(&b, "acl %s %s\n", a.Name, e.ACE.Norm(true))
 			}
 		}
 	}
 	for _, g := range d.Groups {
-		if names[g.Name] {
+		if fixed[g.Name] || marked(g.Name) {
 			fmt.Fprintf(&b, "%s %v\n", g.Header, g.Members)
 		}
 	}
 	for _, l := range d.Lines {
 		if strings.Contains(l, "mgmt") || strings.HasPrefix(l, "snmp-server") || strings.HasPrefix(l, "ntp ") ||
-			strings.HasPrefix(l, "logging ") || strings.HasPrefix(l, "aaa-server") || strings.Contains(l, "admin-pool") ||
-			strings.Contains(l, "AdminPolicy") {
+			strings.HasPrefix(l, "logging ") || strings.HasPrefix(l, "aaa-server") || marked(l) {
 			b.WriteString("line " + l + "\n")
 		}
 	}
 	for _, bl := range d.Blocks {
 		h := bl.Header
 		if strings.HasPrefix(h, "interface ") || strings.HasPrefix(h, "aaa-server") || strings.HasPrefix(h, "policy-map") ||
-			strings.HasPrefix(h, "line vty") || strings.Contains(h, "AdminPolicy") || strings.HasPrefix(h, "ldap attribute-map") {
+			strings.HasPrefix(h, "line vty") || marked(h) || strings.HasPrefix(h, "ldap attribute-map") {
 			sub := bl.Sub
 			if d.Kind == "ios" && strings.HasPrefix(h, "interface ") && !strings.Contains(h, "Loopback") {
 				// Bindings of managed interfaces may change; keep the rest.
@@ -231,6 +234,15 @@ func convCisco(env *run.Env, g *genCase, o *convOutcome, changed, wantPrefixes b
 		} else {
 			o.Commands = append(o.Commands, entry)
 			_, v := dev.Exec(entry)
+			if strings.HasPrefix(v, "rejected:delete-of-referenced-object") && o.Frame == nil {
+				// The device refuses, but the tool did try: judge the
+				// frame condition on a twin that lets the delete through.
+				c := dev.Clone()
+				c.ExecRaw(entry)
+				if now := unmanagedProjection(c); now != before {
+					o.Frame = &clause{"unmanaged-object-delete-attempted", fmt.Sprintf("entry %d '%s' (refused by the device as still referenced): %s", i+1, entry, firstDiffLine(now, before))}
+				}
+			}
 			if !note(i, entry, v) {
 				return
 			}
